@@ -1259,13 +1259,10 @@ class LangServer:
                 {"uri": uri, "diagnostics": diag_results},
             )
         elif diag_exp is not None:
-            self.conn.write_error(
-                -1,
-                code=-32603,
-                message=str(diag_exp),
-                data={
-                    "traceback": traceback.format_exc(),
-                },
+            # Diagnostics are published from notifications (didOpen/didSave), which
+            # must not be answered: report the failure as a message instead
+            self.post_message(
+                f"Diagnostics failed for '{uri}': {diag_exp}", Severity.error
             )
 
     def get_diagnostics(self, uri: str):
